@@ -154,7 +154,7 @@ pub fn generate(a: &Args) {
     let mut scs: Vec<Value> = vec![];
     let pats = ["", "1,1,0,1", "1,0,1", "1,1,1,0", "1,1"];
     // valid decoders: every name, through file or string, with and without puncturing
-    let reps = if th { 6 } else { 1 };
+    let reps = if th { 25 } else { 1 };
     for rep in 0..reps { for (i, name) in NAMES.iter().enumerate() {
         let (rows, n) = random_code(&mut rng, i + rep, 5, 12);
         let h = matrix(&rows, n);
